@@ -7,12 +7,15 @@
   program `Prog α` over the primitives.  `specRun` runs the same program on the unchunked
   machine of Model/C07.lean, which has no buffer and no schedule.
 
-  Proved: every client that stays inside the stated protocol (`InProtocol`, computed on the
-  unchunked machine alone) gets the same results from the chunked byte source under every
-  schedule with a separate EOF read, and no index panic.  Refuted on the model (and replayed on
-  the Go code by the harness): the statement without the protocol.
+  Proved (for the code after fix commits 5478a01 f64c543 ef3ade7 bc3fd85 b35c36c): every client that
+  stays inside the stated protocol (`InProtocol`, computed on the unchunked machine alone) gets the
+  same results from the chunked byte source under every schedule — `io.EOF` with or after the
+  last bytes — and no index panic.  What the protocol still excludes: reading on after the
+  stop-word test fired, `newLit`/`endLit`/`nextPos` misuse, and one residual defect: a positive
+  `zshNumRange` answer that needs more than 64 bytes (refuted on the model below, replayed on the
+  Go code by the harness).
 -/
-import ShVerif.Proofs.C07Client
+import ShVerif.Proofs.C07Pos
 import ShVerif.Gen.C07
 namespace ShVerif.Props.C07
 open ShVerif ShVerif.L2 ShVerif.C07
@@ -49,12 +52,13 @@ theorem parser_is_client : clientOK Gen.C07.byteAccess = true := by decide +kern
 
 /-- Two states of the chunked byte source (different schedules, different buffers) that present
     the same logical state: same remaining input, same consumed offset / line / column, same
-    `r, w`, same literal buffer, same flags. -/
+    `r, w`, same literal buffer. -/
 def Sim (s₁ s₂ : St) : Prop := ∃ a, R s₁ a ∧ R s₂ a
 
-theorem sim_init (input : List Byte) (sc₁ sc₂ : List Nat) (stop : List Byte) :
-    Sim (init input sc₁ false stop) (init input sc₂ false stop) :=
-  ⟨LSt.init input stop, R_init _ _ _, R_init _ _ _⟩
+theorem sim_init (input : List Byte) (sc₁ sc₂ : List Nat) (e₁ e₂ : Bool) (stop : List Byte)
+    (hs : stop.length ≤ 4) :
+    Sim (init input sc₁ e₁ stop) (init input sc₂ e₂ stop) :=
+  ⟨LSt.init input stop, R_init _ _ _ _ hs, R_init _ _ _ _ hs⟩
 
 /-- observable outcome of a run: the result, or `none` for a Go panic / hang -/
 def outcome {α : Type} (x : M (α × St)) : Option α :=
@@ -64,8 +68,8 @@ def outcome {α : Type} (x : M (α × St)) : Option α :=
 
 /-! ## primitives -/
 
-/-- full statement (false today, see the counter-examples below): every primitive maps
-    `Sim`-related states to equal results and `Sim`-related states, for all schedules -/
+/-- full statement (still false because of `zshNumRange`, see `prim_sched_indep_fails`): every
+    primitive maps `Sim`-related states to equal results, for all schedules -/
 def prim_sched_indep_statement : Prop :=
   ∀ (s₁ s₂ : St), Sim s₁ s₂ →
     (outcome s₁.rune = outcome s₂.rune) ∧ (outcome s₁.peek = outcome s₂.peek) ∧
@@ -74,16 +78,7 @@ def prim_sched_indep_statement : Prop :=
     (outcome s₁.zshNum = outcome s₂.zshNum) ∧
     (∀ r, outcome (s₁.stopAt r) = outcome (s₂.stopAt r))
 
-/-- `peek` never depends on the schedule. -/
-theorem peek_sched_indep {s₁ s₂ : St} (h : Sim s₁ s₂) :
-    ∃ v s₁' s₂', s₁.peek = .ok (v, s₁') ∧ s₂.peek = .ok (v, s₂') ∧ Sim s₁' s₂' := by
-  obtain ⟨a, h1, h2⟩ := h
-  obtain ⟨s1', e1, r1⟩ := peek_refines h1
-  obtain ⟨s2', e2, r2⟩ := peek_refines h2
-  exact ⟨_, s1', s2', e1, e2, _, r1, r2⟩
-
-/-- `rune` does not depend on the schedule as long as its backquote test is made with a byte
-    certainly in the buffer (`ok` of the unchunked run). -/
+/-- `rune` does not depend on the schedule (`ok`: the stop word has not fired). -/
 theorem rune_sched_indep_partial {s₁ s₂ : St} {a : LSt} (h1 : R s₁ a) (h2 : R s₂ a)
     (hok : a.rune.2.ok = true) :
     ∃ v s₁' s₂', s₁.rune = .ok (v, s₁') ∧ s₂.rune = .ok (v, s₂') ∧ Sim s₁' s₂' := by
@@ -91,8 +86,15 @@ theorem rune_sched_indep_partial {s₁ s₂ : St} {a : LSt} (h1 : R s₁ a) (h2 
   obtain ⟨s2', e2, r2⟩ := rune_refines h2 hok
   exact ⟨_, s1', s2', e1, e2, _, r1, r2⟩
 
-/-- `peekTwo` does not depend on the schedule when a byte is certainly buffered (or nothing is
-    left): in particular right after `peek`. -/
+/-- `peek` does not depend on the schedule (`ok`: the stop word has not fired). -/
+theorem peek_sched_indep_partial {s₁ s₂ : St} {a : LSt} (h1 : R s₁ a) (h2 : R s₂ a)
+    (hok : a.peek.2.ok = true) :
+    ∃ v s₁' s₂', s₁.peek = .ok (v, s₁') ∧ s₂.peek = .ok (v, s₂') ∧ Sim s₁' s₂' := by
+  obtain ⟨s1', e1, r1⟩ := peek_refines h1 hok
+  obtain ⟨s2', e2, r2⟩ := peek_refines h2 hok
+  exact ⟨_, s1', s2', e1, e2, _, r1, r2⟩
+
+/-- `peekTwo` does not depend on the schedule any more (`ok`: the stop word has not fired). -/
 theorem peekTwo_sched_indep_partial {s₁ s₂ : St} {a : LSt} (h1 : R s₁ a) (h2 : R s₂ a)
     (hok : a.peekTwo.2.2.ok = true) :
     ∃ v w s₁' s₂', s₁.peekTwo = .ok (v, w, s₁') ∧ s₂.peekTwo = .ok (v, w, s₂') ∧ Sim s₁' s₂' := by
@@ -100,50 +102,84 @@ theorem peekTwo_sched_indep_partial {s₁ s₂ : St} {a : LSt} (h1 : R s₁ a) (
   obtain ⟨s2', e2, r2⟩ := peekTwo_refines h2 hok
   exact ⟨_, _, s1', s2', e1, e2, _, r1, r2⟩
 
+/-- the stop-word test does not depend on the schedule any more -/
+theorem stopAt_sched_indep_partial {s₁ s₂ : St} {a : LSt} (r : Nat) (h1 : R s₁ a) (h2 : R s₂ a)
+    (hok : (a.stopAt r).2.ok = true) :
+    ∃ v s₁' s₂', s₁.stopAt r = .ok (v, s₁') ∧ s₂.stopAt r = .ok (v, s₂') ∧ Sim s₁' s₂' := by
+  obtain ⟨s1', e1, r1⟩ := stopAt_refines h1 r hok
+  obtain ⟨s2', e2, r2⟩ := stopAt_refines h2 r hok
+  exact ⟨_, s1', s2', e1, e2, _, r1, r2⟩
+
+/-- `zshNumRange` does not depend on the schedule when a positive answer is decided within the
+    first 64 bytes (and the cursor is not past the end of the buffer) -/
+theorem zshNum_sched_indep_partial {s₁ s₂ : St} {a : LSt} (h1 : R s₁ a) (h2 : R s₂ a)
+    (hok : a.zshNum.2.ok = true) :
+    ∃ v s₁' s₂', s₁.zshNum = .ok (v, s₁') ∧ s₂.zshNum = .ok (v, s₂') ∧ Sim s₁' s₂' := by
+  obtain ⟨s1', e1, r1⟩ := zshNum_refines h1 hok
+  obtain ⟨s2', e2, r2⟩ := zshNum_refines h2 hok
+  exact ⟨_, s1', s2', e1, e2, _, r1, r2⟩
+
 /-! ## client programs -/
 
-/-- full statement (false today): any client, any two schedules of the same bytes — EOF with or
-    after the last data — same result -/
+/-- full statement (still false, see `client_sched_indep_fails`): any client, any two schedules of
+    the same bytes — EOF with or after the last data — same result -/
 def client_sched_indep_statement : Prop :=
   ∀ (α : Type) (p : Prog α) (input stop : List Byte) (sc₁ sc₂ : List Nat) (e₁ e₂ : Bool),
     outcome (p.run (init input sc₁ e₁ stop)) = outcome (p.run (init input sc₂ e₂ stop))
 
 /-- **The chunked byte source refines the unchunked one**: inside the protocol, under every
-    schedule, a client gets exactly the results of the schedule-free machine. -/
+    schedule (EOF with or after the last data), a client gets exactly the results of the
+    schedule-free machine. -/
 theorem client_refines_spec {α : Type} (p : Prog α) (input stop : List Byte) (sc : List Nat)
-    (hp : InProtocol p input stop) :
-    ∃ s', p.run (init input sc false stop) = .ok ((specRun p (LSt.init input stop)).1, s') := by
-  obtain ⟨s', h, _⟩ := client_refines p (R_init input sc stop) hp
+    (e : Bool) (hs : stop.length ≤ 4) (hp : InProtocol p input stop) :
+    ∃ s', p.run (init input sc e stop) = .ok ((specRun p (LSt.init input stop)).1, s') := by
+  obtain ⟨s', h, _⟩ := client_refines p (R_init input sc e stop hs) hp
   exact ⟨s', h⟩
 
 /-- **Schedule independence of client programs** (the property, on the byte layer): inside the
     protocol, any two schedules of the same bytes give the same result. -/
 theorem client_sched_indep_partial {α : Type} (p : Prog α) (input stop : List Byte)
-    (sc₁ sc₂ : List Nat) (hp : InProtocol p input stop) :
-    outcome (p.run (init input sc₁ false stop)) = outcome (p.run (init input sc₂ false stop)) := by
-  obtain ⟨s1, h1⟩ := client_refines_spec p input stop sc₁ hp
-  obtain ⟨s2, h2⟩ := client_refines_spec p input stop sc₂ hp
+    (sc₁ sc₂ : List Nat) (e₁ e₂ : Bool) (hs : stop.length ≤ 4) (hp : InProtocol p input stop) :
+    outcome (p.run (init input sc₁ e₁ stop)) = outcome (p.run (init input sc₂ e₂ stop)) := by
+  obtain ⟨s1, h1⟩ := client_refines_spec p input stop sc₁ e₁ hs hp
+  obtain ⟨s2, h2⟩ := client_refines_spec p input stop sc₂ e₂ hs hp
   rw [h1, h2]; rfl
 
 /-- C06 on the byte layer: inside the protocol no primitive panics (index / slice bounds), hangs
     in `fill`, or exhausts the model's recursion budget. -/
 theorem bytesrc_no_panic {α : Type} (p : Prog α) (input stop : List Byte) (sc : List Nat)
-    (hp : InProtocol p input stop) : ∀ f, p.run (init input sc false stop) ≠ .error f := by
-  obtain ⟨s', h⟩ := client_refines_spec p input stop sc hp
+    (e : Bool) (hs : stop.length ≤ 4) (hp : InProtocol p input stop) :
+    ∀ f, p.run (init input sc e stop) ≠ .error f := by
+  obtain ⟨s', h⟩ := client_refines_spec p input stop sc e hs hp
   intro f hf
   rw [h] at hf
   cases hf
 
-/-- C09 on the byte layer (stated here for the C09 package, not proved in this package): inside
-    the protocol and before any error, `nextPos` is an offset into the raw input. -/
-def bytesrc_pos_inv_statement : Prop :=
+/-- C09 on the byte layer, upper bound: under every schedule, after a client that stays inside the
+    protocol and as long as no error was raised, `nextPos` (raw: `p.offs + p.bsp - p.w`, counting
+    skipped NUL bytes, CR of CR LF, escaped newlines and unescaped backquote backslashes) does not
+    point past the end of the input — the end-of-input position is exactly `len(input)` however
+    the end was discovered. -/
+theorem bytesrc_pos_inv {α : Type} (p : Prog α) (input stop : List Byte) (sc : List Nat)
+    (e : Bool) (hs : stop.length ≤ 4) (hp : InProtocol p input stop) :
+    ∃ v s', p.run (init input sc e stop) = .ok (v, s') ∧
+      (s'.err = none → s'.nextPos.1 ≤ input.length) := by
+  obtain ⟨s', h, hR⟩ := client_refines p (R_init input sc e stop hs) hp
+  refine ⟨_, s', h, ?_⟩
+  intro he
+  have hal : (specRun p (LSt.init input stop)).2.err = none := by rw [hR.f_err]; exact he
+  rw [nextPos_eq hR hal]
+  exact nextPos_le p input stop hal
+
+/-- the lower bound `0 ≤ nextPos` (stated only): it needs the client to apply the stop-word test
+    to the rune just read — a client that calls it with another rune before reading anything gets
+    `p.w = 1` at offset 0 -/
+def bytesrc_pos_nonneg_statement : Prop :=
   ∀ (α : Type) (p : Prog α) (input stop : List Byte), InProtocol p input stop →
     (specRun p (LSt.init input stop)).2.err = none →
-    0 ≤ (specRun p (LSt.init input stop)).2.nextPos.1 ∧
-    (specRun p (LSt.init input stop)).2.nextPos.1 ≤ input.length
+    0 ≤ (specRun p (LSt.init input stop)).2.nextPos.1
 
-/-! ## counter-examples: the statements without the protocol are false (each is replayed on the
-    real parser by the harness, corpus/C07-known.txt) -/
+/-! ## the five fixed defects: the old witnesses now agree on the model -/
 
 /-- `r := rune(); zshNumRange()` -/
 def pZsh : Prog Bool := .rune fun _ => .zshNum fun b => .ret b
@@ -156,46 +192,56 @@ def pBquote : Prog Nat := .setBquotes 1 0 (.rune fun _ => .rune fun _ => .rune f
 /-- `rune(); rune(); nextPos()` : the offset of the end of input -/
 def pEofPos : Prog Int := .rune fun _ => .rune fun _ => .pos fun o _ _ => .ret o
 
-/-- C07-zshnumrange: `<->` all at once vs `<-` + `>` -/
-theorem zshNum_sched_dep :
+/-- fixed ef3ade7: `<->` all at once and as `<-` + `>` -/
+theorem fixed_zshNum :
     outcome (pZsh.run (init [60, 45, 62] [] false)) = some true ∧
-    outcome (pZsh.run (init [60, 45, 62] [2] false)) = some false := by decide +kernel
+    outcome (pZsh.run (init [60, 45, 62] [2] false)) = some true := by decide +kernel
 
-/-- C07-peektwo-single-fill: `ab` all at once vs `a` + `b` -/
-theorem peekTwo_sched_dep :
+/-- fixed f64c543: `ab` all at once and as `a` + `b` -/
+theorem fixed_peekTwo :
     outcome (pPeekTwo.run (init [97, 98] [] false)) = some (97, 98) ∧
-    outcome (pPeekTwo.run (init [97, 98] [1] false)) = some (97, 128) := by decide +kernel
+    outcome (pPeekTwo.run (init [97, 98] [1] false)) = some (97, 98) := by decide +kernel
 
-/-- C07-stopat-no-lookahead: stop word `$$`, input `$$` all at once vs `$` + `$` -/
-theorem stopAt_sched_dep :
+/-- fixed b35c36c: stop word `$$`, input `$$` all at once and as `$` + `$` -/
+theorem fixed_stopAt :
     outcome (pStop.run (init [36, 36] [] false [36, 36])) = some true ∧
-    outcome (pStop.run (init [36, 36] [1] false [36, 36])) = some false := by decide +kernel
+    outcome (pStop.run (init [36, 36] [1] false [36, 36])) = some true := by decide +kernel
 
-/-- C07-bquote-backslash-lookahead: five backslashes and `$` inside backquotes, all at once vs
-    split before the `$` -/
-theorem rune_bquote_sched_dep :
+/-- fixed bc3fd85: five backslashes and `$` inside backquotes, all at once and split before `$` -/
+theorem fixed_rune_bquote :
     outcome (pBquote.run (init [92, 92, 92, 92, 92, 36] [] false)) = some 36 ∧
-    outcome (pBquote.run (init [92, 92, 92, 92, 92, 36] [5] false)) = some 92 := by decide +kernel
+    outcome (pBquote.run (init [92, 92, 92, 92, 92, 36] [5] false)) = some 36 := by decide +kernel
 
-/-- C07-eof-with-data: `a`; EOF by a separate read vs together with the byte -/
-theorem eofWith_pos_dep :
+/-- fixed 5478a01: `a`; EOF by a separate read and together with the byte -/
+theorem fixed_eofWith_pos :
     outcome (pEofPos.run (init [97] [] false)) = some 1 ∧
-    outcome (pEofPos.run (init [97] [] true)) = some 0 := by decide +kernel
+    outcome (pEofPos.run (init [97] [] true)) = some 1 := by decide +kernel
+
+/-! ## the residual counter-example (open finding C07-zshnumrange-long) -/
+
+/-- `<`, 64 digits, `->` -/
+def longRange : List Byte := 60 :: (List.replicate 64 49 ++ [45, 62])
+
+/-- all at once: a numeric range glob; one byte at a time: not -/
+theorem zshNum_long_sched_dep :
+    outcome (pZsh.run (init longRange [] false)) = some true ∧
+    outcome (pZsh.run (init longRange (List.replicate 70 1) false)) = some false := by decide +kernel
 
 theorem client_sched_indep_fails : ¬ client_sched_indep_statement := by
   intro h
-  have := h Bool pZsh [60, 45, 62] [] [] [2] false false
-  rw [zshNum_sched_dep.1, zshNum_sched_dep.2] at this
+  have := h Bool pZsh longRange [] [] (List.replicate 70 1) false false
+  rw [zshNum_long_sched_dep.1, zshNum_long_sched_dep.2] at this
   cases this
 
 theorem prim_sched_indep_fails : ¬ prim_sched_indep_statement := by
   intro h
-  -- the two states after one `rune()` over `<->`, read at once and as `<-` + `>`
+  -- the two states after one `rune()` over the long range, read at once and one byte at a time
   obtain ⟨v, s1, s2, e1, e2, hs⟩ :=
-    rune_sched_indep_partial (R_init [60, 45, 62] [] []) (R_init [60, 45, 62] [2] []) (by decide +kernel)
+    rune_sched_indep_partial (R_init longRange [] false [] (by decide))
+      (R_init longRange (List.replicate 70 1) false [] (by decide)) (by decide +kernel)
   have hz := (h s1 s2 hs).2.2.2.1
-  have a1 := zshNum_sched_dep.1
-  have a2 := zshNum_sched_dep.2
+  have a1 := zshNum_long_sched_dep.1
+  have a2 := zshNum_long_sched_dep.2
   unfold pZsh at a1 a2
   simp only [Prog.run, e1, e2, bind_ok] at a1 a2
   have o1 : outcome s1.zshNum = some true := by
@@ -211,15 +257,16 @@ theorem prim_sched_indep_fails : ¬ prim_sched_indep_statement := by
 
 /-! ## non-vacuity: the protocol is satisfiable by programs that use every lookahead primitive -/
 
-/-- `rune; peek; peekTwo; rune; newLit(r); rune; endLit; nextPos` -/
-def pDemo : Prog (Nat × Nat × List Byte × Int) :=
-  .rune fun _ => .peek fun _ => .peekTwo fun _ y => .rune fun r => .newLit r (.rune fun _ =>
-    .endLit fun l => .pos fun o _ _ => .ret (r, y, l, o))
+/-- `rune; peekTwo; zshNumRange; rune; newLit(r); rune; endLit; stop-word test; nextPos` -/
+def pDemo : Prog (Nat × Nat × Bool × List Byte × Bool × Int) :=
+  .rune fun _ => .peekTwo fun _ y => .zshNum fun z => .rune fun r => .newLit r (.rune fun x =>
+    .endLit fun l => .stopAt x fun st => .pos fun o _ _ => .ret (r, y, z, l, st, o))
 
-example : InProtocol pDemo [92, 10, 195, 169, 120, 0, 121] [] := by
+example : InProtocol pDemo [92, 10, 195, 169, 120, 0, 121] [120, 121] := by
   unfold InProtocol; decide +kernel
 
-example : (specRun pDemo (LSt.init [92, 10, 195, 169, 120, 0, 121] [])).1 = (233, 169, [195, 169], 4) := by
+example : (specRun pDemo (LSt.init [92, 10, 195, 169, 120, 0, 121] [120, 121])).1
+    = (233, 169, false, [195, 169], false, 4) := by
   decide +kernel
 
 end ShVerif.Props.C07
